@@ -17,6 +17,7 @@ PROP = "C19"
 DRIVER = "drv-c19"
 PROOF_MODULES = ["TetlProofs.C19.Props"]
 HARNESS = "harness/c19.cpp"
+SRC = HARNESS
 HARNESS_FLAGS = ["-O0"]          # several hundred extents types x 3 layouts: -O0 keeps the build short
 # a dangling `extents()` reference (mdspan over layout_transpose) is only visible with this ASan mode
 HARNESS_ENV = {"ASAN_OPTIONS": "detect_leaks=1:abort_on_error=0:halt_on_error=1:allocator_may_return_null=1:"
@@ -129,6 +130,13 @@ def conv_list(thorough):
     return q + (x if thorough else []), x
 
 
+def sub_list():
+    """(index type, pattern, keep mask) for submdspan_extents: every mask of full_extent / index slices"""
+    pats = [("i32", p) for p in [()] + masks_over([(3,), (2, 3), (2, 3, 4)]) + [(0, 3), (4, 4, 4, 4), (2, -1, 4, -1)]]
+    pats += [("u8", (2, -1, 4)), ("i64", (-1, 3)), ("u16", (-1, -1, -1))]
+    return [(it, p, m) for it, p in pats for m in range(2 ** len(p))]
+
+
 def span_ct_list():
     """(static extent or -1, op, Offset, Count or -1) for span of length 0..6"""
     out = []
@@ -148,8 +156,12 @@ def pat_str(p):
     return "[" + ",".join(str(x) for x in p) + "]"
 
 
+NMAP = 4          # translation units for the mapping instantiations
+NEXT = 3          # translation units for the extents-only instantiations
+
+
 def inst_hash():
-    return hashlib.sha256(repr((type_list(True), map_type_list(True), conv_list(True), span_ct_list())).encode()).hexdigest()[:16]
+    return hashlib.sha256(repr((type_list(True), map_type_list(True), conv_list(True), span_ct_list(), sub_list(), NMAP, NEXT)).encode()).hexdigest()[:16]
 
 
 def emit_inst(f):
@@ -168,10 +180,29 @@ def emit_inst(f):
             f.write(line(t))
         f.write("#endif\n#endif\n")
     f.write("// GENERATED by `python3 checks/props/c19.py --emit-inst`; do not edit.  hash=%s\n" % inst_hash())
-    section("C19_EXT", type_list(True), lambda t: 'C19_EXT("%s:%s", %s%s)\n' % (t[0], pat_str(t[1]), CTYPE[t[0]], targs(t[1])))
-    section("C19_MAP", map_type_list(True), lambda t: 'C19_MAP("%s:%s", %s%s)\n' % (t[0], pat_str(t[1]), CTYPE[t[0]], targs(t[1])))
+    ecnt = [0]
+
+    def ext_line(t):
+        j = ecnt[0] % NEXT
+        ecnt[0] += 1
+        return ('#if !defined(C19_EXTSEL) || C19_EXTSEL == %d\nC19_EXT("%s:%s", %s%s)\n#endif\n'
+                % (j, t[0], pat_str(t[1]), CTYPE[t[0]], targs(t[1])))
+    section("C19_EXT", type_list(True), ext_line)
+    # the heavy mapping instantiations are dealt round-robin to NMAP selections (one translation unit each, see run())
+    cnt = [0]
+
+    def map_line(t):
+        j = cnt[0] % NMAP
+        cnt[0] += 1
+        return ('#if !defined(C19_MAPSEL) || C19_MAPSEL == %d\nC19_MAP("%s:%s", %s%s)\n#endif\n'
+                % (j, t[0], pat_str(t[1]), CTYPE[t[0]], targs(t[1])))
+    section("C19_MAP", map_type_list(True), map_line)
     section("C19_CONV", conv_list(True), lambda t: 'C19_CONV("%s<%s:%s<%s", (etl::extents<%s%s>), (etl::extents<%s%s>))\n'
             % (t[0], t[1], pat_str(t[2]), pat_str(t[3]), CTYPE[t[0]], targs(t[2]), CTYPE[t[1]], targs(t[3])))
+    f.write("#ifdef C19_SUB\n")
+    for it, p, m in sub_list():
+        f.write('C19_SUB("%s:%s:%d", %d, %s%s)\n' % (it, pat_str(p), m, m, CTYPE[it], targs(p)))
+    f.write("#endif\n")
     f.write("#ifdef C19_SPAN\n")
     for se, op, o, c in span_ct_list():
         f.write('C19_SPAN("%d:%s:%d:%d", %s, %d, %s, %s)\n'
@@ -232,8 +263,12 @@ RULE = ("One `map` case = one extents object (index type, static/dynamic pattern
         "static values 0..4 and every dynamic value 0..4 for rank 0-3, rank 4 every mask over six static tuples with all "
         "(thorough) or sampled (quick) dynamic values and all 625 all-dynamic shapes; seven other index types int8..uint64 "
         "over all-dynamic rank 0-4 and mixed rank 1-3 patterns, limited to shapes whose size is representable (standard "
-        "precondition). Stride mappings: random padded and permuted strides satisfying the uniqueness precondition for every "
-        "such shape. `conv`: every (target mask, source mask) pair over seven value vectors, three index type pairs. `span`: "
+        "precondition). Stride mappings: random padded and permuted strides (and unpadded = exhaustive ones) satisfying the "
+        "uniqueness precondition for every such shape; a stride line also reports required_span_size, is_exhaustive, mdarray "
+        "over the strided mapping, operator== against the layout_left / layout_right mappings of the same extents and "
+        "against strided mappings over dextents<int64_t> with equal / different strides, and the strides and extents "
+        "produced by the converting constructors; an `ext` line also compares the object with extents of another type "
+        "(equal, one value changed, other rank). `conv`: every (target mask, source mask) pair over seven value vectors, three index type pairs. `span`: "
         "every (length 0..6, static or dynamic extent, first/last/subspan, run-time and template arguments, offset, count "
         "incl. dynamic_extent) within the preconditions, against std::span. A case is non-trivial when the index space has "
         "more than one element (map), a dynamic target extent receives a value (conv) or the result is non-empty (span); "
@@ -251,14 +286,22 @@ TRUSTED = ["hand model Tetl/C19/Model.lean tied to the source by the corresponde
            "std::span (R2) on every run"]
 P = "Tetl.C19.Props."
 THEOREMS = {
-    "ext": [P + "extents_ctor_eq", P + "fwd_prod_eq", P + "rev_prod_eq"],
+    "ext": [P + "extents_ctor_eq", P + "fwd_prod_eq", P + "rev_prod_eq", P + "extents_eq_iff"],
     "map": [P + x for x in ("left_in_span", "left_injective", "right_in_span", "right_injective", "zero_extent",
                             "stride_in_span", "stride_injective", "stride_consistent", "required_span_size_eq",
                             "mapIdx_closed_form", "mapIdx_in_span", "mapIdx_injective", "mdspan_access_eq",
-                            "mdarray_access_eq", "ctor_mapping_closed_form", "transpose_eq", "transpose_stride_eq")],
-    "conv": [P + "conv_extent_eq"],
+                            "mdarray_access_eq", "ctor_mapping_closed_form", "transpose_eq", "transpose_stride_eq",
+                            "transpose_extents_eq", "transpose_mapping_extents_eq", "mdspan_access_transpose_eq",
+                            "stride_ctor_strides_eq", "stride_mapIdx_closed_form", "stride_required_span_size_eq",
+                            "stride_mapIdx_in_span", "stride_mapIdx_injective", "stride_is_exhaustive_eq",
+                            "stride_exhaustive_iff_contiguous", "stride_exhaustive_iff_surjective", "stride_exhaustive_std",
+                            "mdspan_access_stride_eq", "mdarray_access_stride_eq", "stride_eq_stride",
+                            "stride_eq_contiguous", "stride_converting_ctors", "extents_eq_iff", "mdspan_size_empty_eq",
+                            "mdspan_subscript_eq", "mdarray_to_mdspan_eq")],
+    "conv": [P + "conv_extent_eq", P + "extents_eq_iff"],
+    "sub": [P + "submdspan_extents_eq"],
     "span": [P + x for x in ("subspan_eq", "subspanT_eq", "first_eq", "last_eq")],
-    "stride_members": [P + "stride_in_span"],
+    "stride_members": [P + "stride_required_span_size_eq", P + "stride_is_exhaustive_eq"],
 }
 
 
@@ -319,16 +362,23 @@ def generate(tier, seed):
             if r == 0:
                 ndraw = 1
             for d in range(ndraw):
-                strs, perm = make_strides(rnd, list(vals), exhaustive=(d == 0 and r < 3))
+                strs, perm = make_strides(rnd, list(vals), exhaustive=(d == 0 and (r < 3 or k % 2 == 0)))
                 if req_stride(vals, strs) > it_max(it) or max(strs + [0]) > it_max(it):
                     continue
                 k += 1
                 add("map lay=stride it=%s pat=%s ext=%s ctor=%s form=%s str=%s perm=%s"
                     % (it, pat_str(p), fmt_list(vals), ("dyn", "all")[k % 2], ("array", "span")[k % 2], fmt_list(strs),
                        fmt_list(perm)), "map/stride/r%d" % r)
-    # ---- undefined layout_stride members (known finding): a few shapes
+    # ---- layout_stride::required_span_size / is_exhaustive alone (they were undefined before the fix): a few shapes
     for (p, vals, strs) in [((2, 3), (2, 3), (3, 1)), ((-1, -1), (2, 3), (1, 2)), ((-1, 3, -1), (2, 3, 4), (1, 8, 2))]:
         add("stride_members it=i32 pat=%s ext=%s str=%s" % (pat_str(p), fmt_list(vals), fmt_list(strs)), "stride_members")
+    # ---- submdspan_extents: every keep mask x every dynamic value vector
+    for it, p, m in sub_list():
+        for vals in dyn_choices(rnd, p, True, 0):
+            if max(vals + (0,)) > it_max(it):
+                continue
+            keep = [(m >> j) & 1 for j in range(len(p))]
+            add("sub it=%s pat=%s ext=%s keep=%s" % (it, pat_str(p), fmt_list(vals), fmt_list(keep)), "sub/r%d" % len(p))
     # ---- converting constructor
     for a, b, dp, sp in conv_list(THOROUGH_BUILD)[0]:
         # a position that is static on either side has that value (requires-clause / precondition)
@@ -349,6 +399,46 @@ def generate(tier, seed):
     return cases, False, dist
 
 
+BASE_FLAGS = list(HARNESS_FLAGS)
+# NMAP mapping units, NEXT extents-only units, conv + span unit, main() + dispatcher
+PARTS = list(range(NMAP)) + [100 + j for j in range(NEXT)] + [200, -1]
+LINK_STUB = "harness/c19_link.cpp"          # empty translation unit: check.py's own compile step only links the objects
+
+
+def _build_parts():
+    """compile the translation units of the harness (harness/c19.cpp, -DC19_PART=k) in parallel; returns the objects"""
+    import concurrent.futures as cf
+    import lib
+    os.makedirs(lib.BUILD, exist_ok=True)
+    flags = list(lib.CXXFLAGS) + BASE_FLAGS
+
+    def one(k):
+        out = os.path.join(lib.BUILD, "c19_part%s.o" % str(k).replace("-", "m"))
+        cmd = [lib.CXX] + flags + ["-DC19_PART=%d" % k, "-I", os.path.join(lib.REPO, "include"),
+                                   "-I", os.path.join(lib.VERIF, "harness"), "-c", os.path.join(lib.VERIF, SRC), "-o", out]
+        rc, o, e = lib.sh(cmd, timeout=1800)
+        return out, rc, o + e
+
+    with cf.ThreadPoolExecutor(max_workers=len(PARTS)) as ex:
+        res = list(ex.map(one, PARTS))
+    bad = [r for r in res if r[1] != 0]
+    if bad:
+        raise MachineryError("harness does not compile against %s:\n%s" % (lib.REPO, bad[0][2][-1500:]))
+    return [r[0] for r in res]
+
+
+def run(ctx, replay=None):
+    """standard flow of check.py, with the translation units of the harness pre-compiled in parallel"""
+    global HARNESS_FLAGS
+    check_inst_current()
+    global HARNESS
+    objs = _build_parts()
+    HARNESS = LINK_STUB
+    HARNESS_FLAGS = BASE_FLAGS + objs
+    import check
+    return check.standard(sys.modules[__name__], ctx, replay)
+
+
 def nontrivial(case, rows):
     ln = case.lines[0]
     r = rows[0]
@@ -356,6 +446,8 @@ def nontrivial(case, rows):
         return "off=[" in r.spec and "," in r.spec.split("off=[")[1].split("]")[0]
     if ln.startswith("ext"):
         return "pat=[]" not in ln
+    if ln.startswith("sub"):
+        return "1" in ln.split("keep=")[1]
     if ln.startswith("conv"):
         return "pat=[]" not in ln and "-1" in ln.split("pat=")[1].split(" ")[0]
     if ln.startswith("span"):
@@ -364,10 +456,8 @@ def nontrivial(case, rows):
 
 
 def classify(case, k, row):
-    # known finding F-C19-stride-undefined-members: class = every `stride_members` line (the members
-    # required_span_size / is_exhaustive of layout_stride::mapping are declared but not defined)
-    if case.lines[k].startswith("stride_members") and "undefined" in row.impl:
-        return "F-C19-stride-undefined-members"
+    # no known (unfixed) finding: F-C19-stride-undefined-members is fixed (the members are defined); if a
+    # definition disappears again the harness prints `undefined` and the case is a violation
     return None
 
 
@@ -379,33 +469,49 @@ CLAIMED = True
 TECHNIQUE = ("Lean 4 proof: hand model of extents / layout mappings / span arithmetic equals the mixed-radix closed form, is "
              "in-span and injective for every rank and extent; model tied to the code by an exhaustive small-scope "
              "correspondence run over template instantiations")
-LEVEL_TEXT = ("extents (constructors, converting constructor, extent, fwd/rev products), layout_left / layout_right / "
-              "layout_stride / layout_transpose mappings, mdspan / mdarray element access and span first/last/subspan are "
-              "modelled clause by clause with checked array accesses and explicit index_type casts. Lean 4 proves for every "
-              "rank, every extents vector and every static/dynamic pattern (no bound) that the model never leaves an array, "
-              "that the offset of an in-range multi-index equals the mixed-radix closed form, lies below required_span_size = "
-              "product of the extents and is distinct for distinct indices (left, right, transposed; explicit strides under "
-              "the standard's uniqueness precondition), that strides are the partial products, that a zero extent leaves no "
-              "in-range index, that mdspan/mdarray access reads exactly buffer[offset], and that span first/last/subspan "
-              "denote (l.drop off).take cnt with the standard's static extent. The model is tied to the current source on "
-              "every run by executing model and implementation on the same cases (every pattern x extents 0..4 for rank 0-3, "
-              "rank 4 by masks, eight index types, padded/permuted strides, all span argument pairs) under ASan/UBSan.")
+LEVEL_TEXT = ("extents (constructors, converting constructor, extent, operator==, fwd/rev products), layout_left / layout_right / "
+              "layout_stride / layout_transpose mappings (operator(), stride, required_span_size, is_exhaustive, operator== "
+              "and the converting constructors of layout_stride), submdspan_extents for full_extent / index slices, mdspan / "
+              "mdarray element access, size, empty, "
+              "operator[](array|span), to_mdspan, container_size and span first/last/subspan are modelled clause by clause "
+              "with checked array accesses and explicit index_type casts. Lean 4 proves for every rank, every extents vector "
+              "and every static/dynamic pattern (no bound) that the model never leaves an array, that the offset of an "
+              "in-range multi-index equals the closed form (mixed radix for left, right, transposed; sum of index*stride for "
+              "explicit strides), lies below required_span_size (product of the extents; 1 + sum (e_k-1)*s_k for strides, 0 "
+              "for an empty index space) and is distinct for distinct indices (explicit strides under the standard's "
+              "uniqueness precondition), that strides are the partial products, that layout_stride::is_exhaustive holds "
+              "exactly when the strides are a permutation of a contiguous layout and exactly when every offset below "
+              "required_span_size is hit, that mdspan/mdarray access over all four layouts reads exactly buffer[offset], and "
+              "that submdspan_extents keeps exactly the kept dimensions with their static extents, and that span "
+              "first/last/subspan denote (l.drop off).take cnt with the standard's static extent. The model is "
+              "tied to the current source on every run by executing model and implementation on the same cases (every "
+              "pattern x extents 0..4 for rank 0-3, rank 4 by masks, eight index types, padded/permuted strides, all span "
+              "argument pairs) under ASan/UBSan.")
 LEVEL_NOTE = ("Trusted: Lean kernel + propext/Classical.choice/Quot.sound; the hand model's fidelity outside the explored "
               "inputs; g++-12/ASan; the C-array enumeration oracle and std::span for spec validation. Theorems about the "
-              "wrapped index_type arithmetic assume the standard's representability precondition (Fits). Members listed in "
+              "wrapped index_type arithmetic assume the representability precondition `Fits`: the product of EVERY run of "
+              "consecutive extents is representable in index_type. For shapes without a zero extent this is the standard's "
+              "precondition (size of the index space representable); for shapes WITH a zero extent it is stronger (the "
+              "standard only needs size 0, while fwd/rev products of the other extents may wrap in the code): such shapes "
+              "with unrepresentable partial products are outside the theorems and the generator. `FitsStride` (layout_stride) "
+              "asks for every extent, every stride and required_span_size representable, as [mdspan.layout.stride.cons]. "
+              "Span: the model returns a precondition error for Count > size() where the code has no run-time check. "
+              "Members listed in "
               "coverage.correspondence_only are compared on every run but have no theorem.")
 CORRESPONDENCE_ONLY = [
-    "layout_stride::mapping::operator() / stride() / strides() with the index_type casts (StrideMap.mapIdx): in-span and "
-    "injectivity are proved for the closed form Σ i_k*s_k (stride_in_span, stride_injective); model = closed form is "
-    "compared on every run only",
-    "mdspan element access over layout_stride and layout_transpose mappings (mdspanAtStride, the transposed read): "
-    "compared on every run; the access theorem mdspan_access_eq covers layout_left / layout_right",
-    "linalg::detail::transpose_extents and layout_transpose::mapping::extents() / required_span_size(): modelled "
-    "(transposeExt, TMap.make) and compared on every run, no theorem",
-    "extents::operator==, mdspan::size / empty / extents, mdspan::operator[](array) and operator[](span), "
-    "mdarray::to_mdspan / container_size: observed by the harness and folded into the md= / mda= / size= fields",
-    "layout_stride::mapping::required_span_size / is_exhaustive: declared, not defined (known finding "
-    "F-C19-stride-undefined-members); the spec value is Spec.reqSpanStride",
+    "layout_transpose::mapping::is_always_exhaustive / is_exhaustive / is_unique / is_strided (and the same members of "
+    "mdspan over it): they forward to the constant members of the nested layout_left / layout_right mapping; observed by "
+    "the harness (exh= field of the transposed lines), not modelled beyond the constant",
+    "submdspan_extents with index-pair slices (run-time bounds) and strided_slice specifiers: the former does not compile "
+    "(the builder appends no value for the new dynamic extent: constructor arity), the latter is a static_assert in the "
+    "source; neither is modelled or exercised (submdspan.hpp itself is commented out in the library); full_extent and "
+    "index slices are modelled, exercised (`sub` lines) and proved (submdspan_extents_eq)",
+    "mdarray constructors other than mdarray(mapping) with a size-constructible container: (extents, value), "
+    "(mapping, value), (extents | mapping, container const& | container&&), the array-container branch (`return {}` / "
+    "value_to_array), the pack and extents forms, swap, extract_container and the mdspan conversion operators are neither "
+    "modelled nor exercised",
+    "mdspan::extents() and mdarray::size(): observed by the harness and folded into the md= / mda= fields (extents() "
+    "through extents::operator==, which has the theorem extents_eq_iff)",
 ]
 
 if __name__ == "__main__":
